@@ -159,6 +159,13 @@ func guard(f func() error) (err error, panicked bool) {
 func (w *World) remFlags(n *Node, b *Block) []bool {
 	r := SubRng(b.Seed^uint64(n.idx+1)*0x9e3779b1, "rem")
 	out := make([]bool, len(b.Adds))
+	if n.cfg.FullRoots {
+		// a full forest remembers every addition whatever the flag says
+		for i := range out {
+			out[i] = true
+		}
+		return out
+	}
 	mode := r.Weighted(2, 2, 2, 3, 2)
 	if len(out) > 4096 && mode != 0 && mode != 2 {
 		mode = 5 // a block of tens of thousands of additions: remember a sparse subset
@@ -277,7 +284,7 @@ func (w *World) bootPartialAt(n *Node, id int) {
 		op = n.bigRoots()
 	}
 	roots := append(append([]H(nil), op...), L.Roots...)
-	m := u.NewMapPollardFromRoots(roots, n.cfg.Big+st.N, false)
+	m := u.NewMapPollardFromRoots(roots, n.cfg.Big+st.N, n.cfg.FullRoots)
 	w.rehome(n, &m)
 	n.mp = &mapView{m: &m, B: n.cfg.Big, opaque: op, node: n}
 	n.acc = n.mp
@@ -531,7 +538,7 @@ func (w *World) applyPartial(n *Node, b *Block) {
 		for _, d := range b.Dels {
 			n.remembered[d] = true
 		}
-		if w.on("partial") {
+		if w.on("partial") && !n.cfg.FullRoots {
 			w.checkPartialContent(n, b.Pre, "after-verify-remember")
 			if w.stop {
 				return
